@@ -4,3 +4,4 @@ import HpoProofs.NumReal
 import HpoProofs.Similarity
 import HpoProofs.Matrix
 import HpoProofs.Combine
+import HpoProofs.Distance
